@@ -1,9 +1,9 @@
 #!/bin/sh
 # Maintainer helper: like try_seed.sh but fully isolated from /repo and /verif/build, so that it can run while registered checks are running:
 # the patch is applied in a scratch worktree, the checks run from a scratch copy of /verif with its own build directory.
-# usage: try_seed_iso.sh <abs patch | none> Cxx [Cyy...]      env: TIER, LINES_MAX
+# usage: try_seed_iso.sh <abs patch | none> Cxx [Cyy...]      env: TIER, LINES_MAX, ISO (suffix: several can run side by side)
 P=$1; shift
-WT=/tmp/wt-seedtest; VS=/tmp/vseed
+WT=/tmp/wt-seedtest${ISO:-}; VS=/tmp/vseed${ISO:-}
 [ -d $WT ] || git -C /repo worktree add --detach $WT HEAD >/dev/null 2>&1
 git -C $WT checkout -q --detach $(git -C /repo rev-parse HEAD); git -C $WT reset -q --hard; git -C $WT clean -qfd -e _build
 if [ "$P" != none ]; then git -C $WT apply $P 2>/dev/null || git -C $WT apply -3 $P 2>/dev/null || { echo "PATCH DOES NOT APPLY"; exit 9; }; fi
